@@ -23,9 +23,9 @@
        [map_keys_monotone] (C12, remove_empty off) *)
 From Coq Require Import List Ascii String ZArith NArith Bool Lia Permutation.
 From Shexer Require Import Lib.PyStr Lib.Dict Lib.Bin64 Gen.Consts Spec.Rdf Model.Tracker Model.Profiler
-  Model.Tokens Model.Freq Model.FreqInst Model.Shexing Model.SerialShexc Model.Run Model.RunMap Spec.Counts
+  Model.Tokens Model.Freq Model.FreqInst Model.Shexing Model.ShexingFix Model.SerialShexc Model.Run Model.RunMap Spec.Counts
   Proofs.DictLemmas Proofs.ProfileChar Proofs.ShexLemmas Proofs.ShexKeys Proofs.Bin64Round Proofs.FreqLaws
-  Proofs.EndToEnd.
+  Proofs.EndToEnd Proofs.ShexingFixProofs.
 From Shexer Require Model.Selectors.
 Import ListNotations.
 Local Open Scope N_scope.
@@ -96,7 +96,7 @@ Lemma run_shapes_map_unfold fa c orc sp thr g :
              match profile (pcfg_map c orc sp targets) ins g with
              | inr e => inr (merr_of_p e)
              | inl (P, C, _) =>
-               match shex fa (scfg_map c sp (Selectors.ns_with_shapes orc sp)) thr P C with
+               match shex_cur fa (scfg_map c sp (Selectors.ns_with_shapes orc sp)) thr P C with
                | inr e => inr (MERun (rerr_of_s e))
                | inl shapes => inl (Selectors.ns_with_shapes orc sp, shapes)
                end
@@ -115,7 +115,7 @@ Theorem run_shapes_map_ok_iff fa c orc sp thr g ns shapes :
     Selectors.run orc sp g = Selectors.OOk I /\
     prof_targets orc sp = Selectors.Ok targets /\
     profile (pcfg_map c orc sp targets) I g = inl (P, C, ID) /\
-    shex fa (scfg_map c sp ns) thr P C = inl shapes.
+    shex_cur fa (scfg_map c sp ns) thr P C = inl shapes.
 Proof.
   rewrite run_shapes_map_unfold. split.
   - destruct (r_disable_or c && r_allow_redundant_or c); [discriminate|].
@@ -123,7 +123,7 @@ Proof.
     destruct (Selectors.run orc sp g) as [I|e|e] eqn:ER; try discriminate.
     destruct (prof_targets orc sp) as [targets|e] eqn:ET; [|discriminate].
     destruct (profile (pcfg_map c orc sp targets) I g) as [[[P C] ID]|e] eqn:EP; [|destruct e; discriminate].
-    destruct (shex fa _ thr P C) as [sh|e] eqn:ES; [|discriminate].
+    destruct (shex_cur fa _ thr P C) as [sh|e] eqn:ES; [|discriminate].
     intros H. injection H as <- <-. exists I, targets, P, C, ID.
     repeat split; auto. discriminate.
   - intros (I & targets & P & C & ID & -> & HF & -> & -> & -> & HP & HS).
@@ -138,7 +138,7 @@ Theorem run_shapes_map_decompose fa c orc sp thr g ns shapes :
     Selectors.run orc sp g = Selectors.OOk I /\ NoDup (dkeys I) /\
     prof_targets orc sp = Selectors.Ok targets /\
     profile (pcfg_map c orc sp targets) I g = inl (P, C, ID) /\
-    shex fa (scfg_map c sp ns) thr P C = inl shapes.
+    shex_cur fa (scfg_map c sp ns) thr P C = inl shapes.
 Proof.
   intros H. apply run_shapes_map_ok_iff in H. destruct H as (I & targets & P & C & ID & _ & _ & E & HR & HT & HP & HS).
   exists I, targets, P, C, ID. repeat split; auto. apply (run_keys_nodup _ _ _ _ HR).
@@ -180,7 +180,7 @@ Inductive map_failure (fa : FreqAlg) (c : rcfg) (orc : Selectors.oracles) (sp : 
     Selectors.find_adequate_prefix (Selectors.sp_ns sp) <> None ->
     Selectors.run orc sp g = Selectors.OOk I -> prof_targets orc sp = Selectors.Ok targets ->
     profile (pcfg_map c orc sp targets) I g = inl (P, C, ID) ->
-    shex fa (scfg_map c sp (Selectors.ns_with_shapes orc sp)) thr P C = inr e ->
+    shex_cur fa (scfg_map c sp (Selectors.ns_with_shapes orc sp)) thr P C = inr e ->
     map_failure fa c orc sp thr g (MERun (rerr_of_s e)).
 
 Theorem run_shapes_map_err_iff fa c orc sp thr g e :
@@ -196,7 +196,7 @@ Proof.
     destruct (prof_targets orc sp) as [targets|x] eqn:ET; [|intros H; injection H as <-; apply (MF_tune _ _ _ _ _ _ I x); auto].
     destruct (profile (pcfg_map c orc sp targets) I g) as [[[P C] ID]|pe] eqn:EP;
       [|intros H; injection H as <-; apply (MF_profile _ _ _ _ _ _ I targets pe); auto].
-    destruct (shex fa _ thr P C) as [sh|se] eqn:ES; [discriminate|].
+    destruct (shex_cur fa _ thr P C) as [sh|se] eqn:ES; [discriminate|].
     intros H; injection H as <-. apply (MF_shex _ _ _ _ _ _ I targets P C ID se); auto.
   - intros H. destruct H as [H | H0 H | x H0 HF H | x H0 HF H | I x H0 HF H1 H2 | I t x H0 HF H1 H2 H3 | I t P C ID x H0 HF H1 H2 H3 H4].
     + rewrite H. reflexivity.
@@ -211,9 +211,9 @@ Qed.
 (** the threshold reaches the run only through [shex] *)
 Theorem map_threshold_only_in_shex fa c orc sp thr g ns shapes :
   run_shapes_map fa c orc sp thr g = inl (ns, shapes) ->
-  exists P C, shex fa (scfg_map c sp ns) thr P C = inl shapes /\
+  exists P C, shex_cur fa (scfg_map c sp ns) thr P C = inl shapes /\
               forall thr', run_shapes_map fa c orc sp thr' g =
-                           match shex fa (scfg_map c sp ns) thr' P C with
+                           match shex_cur fa (scfg_map c sp ns) thr' P C with
                            | inl s => inl (ns, s) | inr e => inr (MERun (rerr_of_s e)) end.
 Proof.
   intros H. apply run_shapes_map_ok_iff in H.
@@ -311,8 +311,8 @@ Section ComposedMap.
       apply FO_merge; assumption.
   Qed.
 
-  Lemma post_ok_inv_m ce t :
-    In ce P -> post_ok cfg (class_pd cfg ce (s_inv t)) t -> s_inv t = true -> p_inverse pc = true.
+  Lemma post_okR_inv_m ce t :
+    In ce P -> post_okR cfg (fig_src (class_pd cfg ce (s_inv t)) (s_prop t)) t -> s_inv t = true -> p_inverse pc = true.
   Proof.
     intros Hce (ty & pr0 & c0 & _ & _ & Hf & _) Hi.
     assert (He : exists k ck n, pd_entry (class_pd cfg ce (s_inv t)) (s_prop t) k ck n).
@@ -353,7 +353,7 @@ Section ComposedMap.
   Qed.
 
   Variable shapes : list shape.
-  Hypothesis Hshex : shex fa cfg thr P C = inl shapes.
+  Hypothesis Hshex : shex_cur fa cfg thr P C = inl shapes.
 
   (** C01, header and figures, for one output shape *)
   Lemma composed_shape_map sh :
@@ -365,11 +365,11 @@ Section ComposedMap.
       (s_inv st = true -> p_inverse pc = true) /\
       post_okR cfg (fig_occ tau I g (dir_of (s_inv st)) (sh_class sh) (s_prop st)) st.
   Proof.
-    intros Hsh. destruct (K3 fa cfg thr P C shapes Hshex sh Hsh) as (ce & Hce & E1 & E2 & E3 & Hst).
+    intros Hsh. destruct (stage_K3 fa cfg thr P C shapes Hshex sh Hsh) as (ce & Hce & E1 & E2 & E3 & Hst).
     pose proof (P_keys_sub_m ce Hce) as Hk. rewrite E2.
     split; [exact Hk|]. split; [exact E1|]. split; [rewrite E3; apply cnt_of_class_count_m; exact Hk|].
-    intros st Hin. specialize (Hst st Hin). split; [apply (post_ok_inv_m ce st Hce Hst)|].
-    apply (post_ok_R cfg (class_pd cfg ce (s_inv st)) _ st); [|exact Hst]. intros ty n pr c0. apply fig_src_occ_m. exact Hce.
+    intros st Hin. specialize (Hst st Hin). split; [apply (post_okR_inv_m ce st Hce Hst)|].
+    refine (post_okR_impl cfg _ _ st _ Hst). intros ty n pr c0. apply fig_src_occ_m. exact Hce.
   Qed.
 End ComposedMap.
 
@@ -410,8 +410,8 @@ Theorem map_header fa c orc sp thr g ns shapes :
 Proof.
   intros H. apply run_shapes_map_decompose in H. destruct H as (I & targets & P & C & ID & -> & HR & HN & HT & HP & HS).
   exists I, targets. repeat (split; [assumption|]). split.
-  - apply (proj1 (shex_classes _ _ _ _ _ _ HS)). apply (P_nodup_m _ g I P C ID HN HP).
-  - intros Hre. rewrite (proj2 (shex_classes _ _ _ _ _ _ HS) Hre). apply (P_keys_all_m _ g I P C ID HN HP Hre).
+  - apply (proj1 (stage_classes _ _ _ _ _ _ HS)). apply (P_nodup_m _ g I P C ID HN HP).
+  - intros Hre. rewrite (proj2 (stage_classes _ _ _ _ _ _ HS) Hre). apply (P_keys_all_m _ g I P C ID HN HP Hre).
 Qed.
 
 (** C02 without remove_empty_shapes: keys iff threshold *)
@@ -433,7 +433,7 @@ Proof.
   assert (I0 = I) by congruence. assert (t0 = targets) by congruence. subst I0 t0.
   exists I, targets. repeat (split; [assumption|]). split; [apply HK0; exact Hre|].
   set (pc := pcfg_map c orc sp targets) in *. set (cfg := scfg_map c sp (Selectors.ns_with_shapes orc sp)) in *.
-  intros sh Hsh. pose proof (K1 fa cfg thr P C shapes Hre HS) as F.
+  intros sh Hsh. pose proof (stage_K1 fa cfg thr P C shapes Hre HS) as F.
   destruct (Forall2_In_r _ _ _ _ F Hsh) as (ce & Hce & _ & E2 & E3 & Hk & Hn). rewrite E2. split; [|split].
   - rewrite E3. apply (cnt_of_class_count_m pc g I P C ID HN HP). apply (P_keys_sub_m pc g I P C ID HN HP ce Hce).
   - intros inv p vc. rewrite Hk. split.
@@ -462,10 +462,10 @@ Proof.
   exists I, targets. repeat (split; [assumption|]).
   set (pc := pcfg_map c orc sp targets) in *. set (cfg := scfg_map c sp (Selectors.ns_with_shapes orc sp)) in *.
   intros sh Hsh.
-  destruct (K1_remove fa cfg thr P C shapes Hre HS sh Hsh) as (ce & Hce & _ & E2 & E3 & Hne & Hk & Hn).
+  destruct (stage_keys_sound fa cfg thr P C shapes HS sh Hsh) as (ce & Hce & E2 & E3 & Hne & Hk & Hn).
   pose proof (P_keys_sub_m pc g I P C ID HN HP ce Hce) as Hck. rewrite E2.
   split; [exact Hck|]. split; [rewrite E3; apply (cnt_of_class_count_m pc g I P C ID HN HP _ Hck)|].
-  split; [exact Hne|]. split.
+  split; [exact (Hne Hre)|]. split.
   - intros inv p vc Hin. apply (key_passes_to_occ_m fa pc cfg g I P C ID HN HP eq_refl thr ce inv p vc Hce). apply Hk. exact Hin.
   - intros Et Hg. apply Hn; apply (pd_no_nl_of_graph_m pc cfg g I P C ID HN HP eq_refl ce _ Hce Et Hg).
 Qed.
@@ -493,7 +493,7 @@ Section MapMonotone.
     assert (I' = I) by congruence. assert (targets' = targets) by congruence. subst I' targets'.
     rewrite HP in HP'. injection HP' as <- <- <-. split; [reflexivity|].
     set (pc := pcfg_map c orc sp targets) in *. set (cfg := scfg_map c sp (Selectors.ns_with_shapes orc sp)) in *.
-    refine (K2_keep fa cfg okF okN (ratio_wf _ _ _ L) (fle_trans _ _ _ L) thr1 thr2 P C s1 s2 Hre W1 W2 _ Hle HS1 HS2).
+    refine (stage_mono fa cfg okF okN (ratio_wf _ _ _ L) (fle_trans _ _ _ L) thr1 thr2 P C s1 s2 Hre W1 W2 _ Hle HS1 HS2).
     intros ce inv p k ck n Hce He.
     destruct (pd_entry_occ_m pc cfg g I P C ID HN HP eq_refl ce inv p k ck n Hce He) as (En & Hpos & _).
     rewrite (cnt_of_class_count_m pc g I P C ID HN HP _ (P_keys_sub_m pc g I P C ID HN HP ce Hce)).
@@ -525,11 +525,12 @@ From Shexer Require Proofs.EndToEnd2.
 
 (** the constructor having accepted the specification, the trackers and the
     profiler having succeeded with a profile all of whose type keys are
-    renderable: the shexing stage succeeds -- provided disjunctions are
-    disabled (the default) or empty shapes are kept.  (Both switched the other
-    way: [C04_choice_prune_run_refuted].) *)
+    renderable: the shexing stage succeeds -- whatever the options once
+    ClassShexer removes the empty shapes before the merges
+    ([c_clean_before_merge]); in the old order provided disjunctions are
+    disabled (the default) or empty shapes are kept. *)
 Theorem map_run_total_tokens fa c orc sp thr g I targets P C ID :
-  r_disable_or c = true \/ r_remove_empty c = false ->
+  c_clean_before_merge = true \/ r_disable_or c = true \/ r_remove_empty c = false ->
   r_disable_or c && r_allow_redundant_or c = false ->
   Selectors.find_adequate_prefix (Selectors.sp_ns sp) <> None ->
   Selectors.run orc sp g = Selectors.OOk I ->
@@ -539,7 +540,7 @@ Theorem map_run_total_tokens fa c orc sp thr g I targets P C ID :
   exists shapes, run_shapes_map fa c orc sp thr g = inl (Selectors.ns_with_shapes orc sp, shapes).
 Proof.
   intros Hopt H0 HF HR HT HP Hok.
-  destruct (EndToEnd2.shex_total_either fa (scfg_map c sp (Selectors.ns_with_shapes orc sp)) thr P C Hopt Hok) as [shapes HS].
+  destruct (stage_total fa (scfg_map c sp (Selectors.ns_with_shapes orc sp)) thr P C Hopt Hok) as [shapes HS].
   exists shapes. apply run_shapes_map_ok_iff. exists I, targets, P, C, ID. repeat split; auto.
 Qed.
 
@@ -552,9 +553,9 @@ Theorem map_failure_after_front fa c orc sp thr g I targets P C ID e :
   Selectors.find_adequate_prefix (Selectors.sp_ns sp) <> None ->
   run_shapes_map fa c orc sp thr g = inr e ->
   exists se, e = MERun (rerr_of_s se) /\
-             shex fa (scfg_map c sp (Selectors.ns_with_shapes orc sp)) thr P C = inr se.
+             shex_cur fa (scfg_map c sp (Selectors.ns_with_shapes orc sp)) thr P C = inr se.
 Proof.
   intros HR HT HP H0 HF H. rewrite run_shapes_map_unfold, H0 in H.
   destruct (Selectors.find_adequate_prefix (Selectors.sp_ns sp)); [|contradiction]. rewrite HR, HT, HP in H.
-  destruct (shex fa _ thr P C) as [sh|se] eqn:ES; [discriminate|]. injection H as <-. exists se. auto.
+  destruct (shex_cur fa _ thr P C) as [sh|se] eqn:ES; [discriminate|]. injection H as <-. exists se. auto.
 Qed.
